@@ -272,11 +272,11 @@ Proof.
   rewrite Hn. destruct (native l sc []); reflexivity.
 Qed.
 
-Theorem nil_pm_no_panic l sc : sc_wf sc = true -> process_signature l PMNil sc <> PSPanic.
+Theorem nil_pm_no_panic l sc : process_signature l PMNil sc <> PSPanic.
 Proof.
-  intros Hsc. unfold process_signature, process_signature_gen, presp_nil_res; fold discover. destruct (s_sig sc); try discriminate.
+  unfold process_signature, process_signature_gen, presp_nil_res; fold discover. destruct (s_sig sc); try discriminate.
   destruct (discover_nil_pm sc) as [[e E]|E]; rewrite E; [discriminate|].
-  pose proof (native_no_panic l sc [] Hsc) as Hn.
+  pose proof (native_no_panic l sc []) as Hn.
   destruct (native l sc []); try congruence; try discriminate.
   cbn. destruct (s_crit sc); discriminate.
 Qed.
